@@ -16,7 +16,7 @@ from sa.guards import GuardView
 from sa.index import AnalysisError
 from sa.report import Ctx
 from sa.stutter import flag_loops_without_exit, stutter_paths
-from sa.undefined import implicit_none_paths, possibly_undefined, undefined_names, uninitialised_fields
+from sa.undefined import implicit_none_paths, possibly_undefined, stride_conflicts, undefined_names, uninitialised_fields
 
 HERE = os.path.dirname(os.path.dirname(os.path.abspath(__file__)))
 
@@ -294,6 +294,10 @@ def generic_sweeps(ctx: Ctx, stutter: bool = True, skip_stutter_modules: tuple =
                         continue
                     n_sel += 1
                     ctx.ob(g + "8", "R40 ARGUMENT-SELECTION", f, f"`{an}` is not passed where `{callee.name}` expects `{p_}`", False, f"`{ast.unparse(c)[:70]}`: the argument's name and the parameter's name denote opposite things (rows/columns, lower/upper, source/target ...), which usually means two arguments were swapped", node=c)
+    for rel_, hname, p_, an, ln in getattr(ctx.repo, "inline_bindings", []):
+        if rel_ in {m.rel for m in mods} and _opposite(an, p_):
+            n_sel += 1
+            ctx.ob(g + "8", "R40 ARGUMENT-SELECTION", None, f"`{an}` is not passed where `{hname}` expects `{p_}`", False, f"call of the helper `{hname}` at line {ln} (analysed inlined): the argument's name and the parameter's name denote opposite things (rows/columns, lower/upper, source/target ...), which usually means two arguments were swapped", rel=rel_, fname=hname)
     # R42: the caller has a variable named exactly like the callee's parameter and hands over another of its own
     # parameters instead (`_most_fractional(x_vals, gap_tol)` where both `eps` and `gap_tol` are in scope)
     for m in mods:
@@ -338,6 +342,25 @@ def generic_sweeps(ctx: Ctx, stutter: bool = True, skip_stutter_modules: tuple =
                     n_sent += 1
                     ctx.ob(g + "9", "R41 OPTIONAL-MEANS-NONE", f, f"optional parameter `{prm.arg}` defaults to None", False, f"it defaults to the private sentinel `{d.id}`: a caller that passes None explicitly (the 'not given' value of every other optional parameter here, forwarded as such by wrappers) now has None taken as a real value", node=d)
     ctx.ob(g + "9", "R41 OPTIONAL-MEANS-NONE", None, f"no public function of the anchor files replaces None by a private sentinel as the 'not given' default ({n_opt} optional parameters default to None)", n_sent == 0, "", rel=mods[0].rel, fname="<anchor files>")
+    # R45: a flat table addressed as t[a * s + b] is laid out with one stride
+    n_stride = 0
+    for m in mods:
+        for q in sorted(m.funcs):
+            f = m.funcs[q]
+            for tname, sets, node in stride_conflicts(f):
+                n_stride += 1
+                ctx.ob(g + "12", "R45 STRIDE-AGREEMENT", f, f"every index computation into `{tname}` uses the same stride", False, f"products found in its indices: {sets} - no factor is common to all of them, so two sites disagree on where cell (i, j) lives (invisible while the two strides happen to be equal, e.g. for square inputs)", node=node)
+    # the rule expects zero instances on the tree: its fixture pair keeps it honest on every run
+    import types as _types
+
+    fx = ast.parse(open(os.path.join(os.path.dirname(os.path.dirname(os.path.abspath(__file__))), "fixtures", "stride_shapes.py"), encoding="utf-8").read())
+    got = {}
+    for fn_ in fx.body:
+        if isinstance(fn_, ast.FunctionDef):
+            shim = _types.SimpleNamespace(node=fn_, own_nodes=lambda fn_=fn_: [x for x in ast.walk(fn_)])
+            got[fn_.name] = bool(stride_conflicts(shim))
+    ctx.require(got == {"two_strides": True, "one_stride": False}, f"rule R45 no longer separates its fixture pair: {got}")
+    ctx.ob(g + "12", "R45 STRIDE-AGREEMENT", None, "no flat table of the anchor files is addressed with two different strides", n_stride == 0, "", rel=mods[0].rel, fname="<anchor files>")
     # R44: a constructor assigns each of its fields on every path to a normal return
     n_init = n_uninit = 0
     for m in mods:
